@@ -709,6 +709,8 @@ class Tensor(object):
             result.cores[0] = result.cores[0] * np.sign(other)
             return result
 
+        if self.batch != other.batch:
+            raise ValueError("Tensors with the same batch mode are supported")
         if self.batch:
             m = 3
             idx1 = "gijk,gabc->giajbkc"
